@@ -22,7 +22,7 @@ type arrival struct {
 }
 
 type scenario struct {
-	Kind      string      `json:"kind"` // delayfilter | router | chain (sender behind a LAN router behind the WAN router, both delaying)
+	Kind      string      `json:"kind"` // delayfilter | router | chain (sender behind a LAN router behind the WAN router, both delaying) | routerfilter (the receiver sits behind a delay filter of Delay2Ns attached to the delaying router)
 	Delay2Ns  int64       `json:"delay2Ns"` // chain: the LAN router's minimum delay
 	RestartAtNs int64     `json:"restartAtNs"` // router variants: Stop and Start the (WAN) router at this time (0 = never)
 	DelayNs   int64       `json:"delayNs"`
@@ -39,6 +39,9 @@ func gen(r *harn.Rng, tier string) interface{} {
 	} else if r.Bool(0.3) {
 		sc.Kind = "chain"
 		sc.Delay2Ns = delays[2+r.Intn(len(delays)-2)]
+	} else if r.Bool(0.25) {
+		sc.Kind = "routerfilter"
+		sc.Delay2Ns = delays[2+r.Intn(len(delays)-2)]
 	} else {
 		sc.Kind = "router"
 		if r.Bool(0.5) {
@@ -46,11 +49,11 @@ func gen(r *harn.Rng, tier string) interface{} {
 		}
 	}
 	sc.DelayNs = delays[r.Intn(len(delays))]
-	if sc.Kind != "delayfilter" && r.Bool(0.25) {
+	if sc.Kind != "delayfilter" && sc.Kind != "routerfilter" && r.Bool(0.25) {
 		sc.RestartAtNs = int64(r.Pick(1, 1000, 500000, 1000000, 10000000, 30000000))
 	}
 	np := r.Range(1, 3)
-	if sc.Kind == "router" || sc.Kind == "chain" {
+	if sc.Kind == "router" || sc.Kind == "chain" || sc.Kind == "routerfilter" {
 		np = r.Range(1, 2)
 	}
 	for p := 0; p < np; p++ {
@@ -118,7 +121,7 @@ func payload(id uint32, n int) []byte {
 
 func run(env *simrt.Env, sci interface{}) {
 	sc := sci.(*scenario)
-	if sc.Kind == "router" || sc.Kind == "chain" {
+	if sc.Kind == "router" || sc.Kind == "chain" || sc.Kind == "routerfilter" {
 		runRouter(env, sc)
 		return
 	}
@@ -266,7 +269,34 @@ func runRouter(env *simrt.Env, sc *scenario) {
 		}
 		return n
 	}
-	recvNet := mk("10.0.0.100")
+	var recvNet *vnet.Net
+	var dfRunner *simrt.Handle
+	var dfCancel context.CancelFunc
+	if sc.Kind == "routerfilter" {
+		// the receiving host is attached through a delay filter: the filter's delay counts from
+		// the moment the router hands the datagram over, i.e. on top of the router's own delay
+		n, err := vnet.NewNet(&vnet.NetConfig{StaticIPs: []string{"10.0.0.100"}})
+		if err != nil {
+			env.Infra("NewNet: %v", err)
+			return
+		}
+		df, err := vnet.NewDelayFilter(n, time.Duration(sc.Delay2Ns))
+		if err != nil {
+			env.Infra("NewDelayFilter: %v", err)
+			return
+		}
+		if err := wan.AddNet(df); err != nil {
+			env.Infra("AddNet(filter): %v", err)
+			return
+		}
+		var ctx context.Context
+		ctx, dfCancel = context.WithCancel(context.Background())
+		dfRunner = env.Go("filter-run", func() { df.Run(ctx) })
+		recvNet = n
+		delay += time.Duration(sc.Delay2Ns)
+	} else {
+		recvNet = mk("10.0.0.100")
+	}
 	if recvNet == nil {
 		return
 	}
@@ -372,7 +402,17 @@ func runRouter(env *simrt.Env, sc *scenario) {
 	env.Join(hs...)
 	// quiet for an hour: a router that was stalled inside a pass sleeps for as long as the pass
 	// took before it looks at its queue again, and stall faults (up to 40 s each) add up
-	env.QuiesceWithin(time.Hour)
+	if sc.Kind == "routerfilter" {
+		for { // the filter's idle timer never lets the system go quiet
+			n := len(got)
+			env.Idle(2 * time.Hour)
+			if len(got) == n || env.Failed() {
+				break
+			}
+		}
+	} else {
+		env.QuiesceWithin(time.Hour)
+	}
 	if env.Failed() {
 		return
 	}
@@ -411,6 +451,10 @@ func runRouter(env *simrt.Env, sc *scenario) {
 	_ = wan.Stop()
 	_ = rc.Close()
 	env.Join(reader)
+	if dfCancel != nil {
+		dfCancel()
+		env.Join(dfRunner)
+	}
 }
 
 func shrinkSc(sci interface{}) []interface{} {
